@@ -23,6 +23,7 @@ RULE = (
     "boundary patch and nodal/surface/volume loads. Non-trivial = every column of the injected state is non-zero everywhere "
     "and no two columns coincide (so a mis-wired component shows) / a non-zero constant / a non-zero load; "
     "distinct = sha1 of the case, the class histogram counts (simulation type, result name)."
+    ' size_coincidences: enumerated meshes padded with orphan nodes so that Nn*dof_n == Ne or Nn == Ne; reactions_transient: Calc_Reaction of an arbitrary state vs K u + C v + M a for every scheme (non-trivial = non-zero last term); energy_units: the energy identity at state magnitudes 1e-9 and 1e6, one case per simulation type.'
 )
 ASSUMPTIONS = [
     "the state is the one the harness injected (nodal arrays drawn from numpy default_rng(seed)); dof numbering node*dof_n+comp",
